@@ -520,6 +520,8 @@ type VsSpec struct {
 	PruneP int                    // bound to reach when pruning has been validated for the scenario (0 = same as P)
 	Sample func() any             // describes the last execution (for evidence)
 	MaxExecs int
+	Horizon  int  // step horizon per execution (0 = the default)
+	Livelock bool // reaching the horizon is a behaviour the check looks at (x.HitHorizon), not a cap
 }
 
 // Viol is a property violation seen in one execution.
@@ -655,11 +657,11 @@ func runVs(c *RunCtx, sp *VsSpec) *Result {
 		prune = false
 	}
 	for p := 0; p <= maxP; p++ {
-		b := vs.Bounds{P: p, D: sp.D, Deadline: c.Deadline, MaxExecs: sp.MaxExecs, Delay: sp.Delay, Prune: prune}
+		b := vs.Bounds{P: p, D: sp.D, Deadline: c.Deadline, MaxExecs: sp.MaxExecs, Delay: sp.Delay, Prune: prune, Horizon: sp.Horizon, Livelock: sp.Livelock}
 		st, v := vs.Explore(sp.Body, chk, b)
 		if wantPrune && p == vb && v == nil && st.Exhaustive {
 			wantPrune = false
-			pruned, v2 := vs.Explore(sp.Body, chk, vs.Bounds{P: vb, D: sp.D, Deadline: c.Deadline, Delay: sp.Delay, Prune: true})
+			pruned, v2 := vs.Explore(sp.Body, chk, vs.Bounds{P: vb, D: sp.D, Deadline: c.Deadline, Delay: sp.Delay, Prune: true, Horizon: sp.Horizon, Livelock: sp.Livelock})
 			same := v2 == nil && pruned.Exhaustive && len(st.Distinct) == len(pruned.Distinct)
 			if same {
 				for h := range st.Distinct {
